@@ -828,6 +828,11 @@ func summarize(chk *Check, results []caseOutcome, st *smt.Stats, validated, mism
 		for _, r := range results {
 			all = append(all, sc{r.c.ID, r.res.Wall, r.res.Solver.Queries})
 		}
+		for _, r := range results {
+			for msg, n := range r.res.Inconclusive {
+				fmt.Printf("INCONCLUSIVE-CASE %q: %s (x%d)\n", r.c.ID, msg, n)
+			}
+		}
 		sort.Slice(all, func(i, j int) bool { return all[i].w > all[j].w })
 		for i := 0; i < len(all) && i < 12; i++ {
 			fmt.Printf("SLOW %s wall=%s queries=%d\n", all[i].id, all[i].w, all[i].q)
